@@ -383,6 +383,12 @@ func (gen *Generator) GenerateMacexpand(args []Sexp) error {
 
 func (gen *Generator) GenerateShortCircuit(or bool, args []Sexp) error {
 	size := len(args)
+	if size == 0 {
+		// (and) is true and (or) is false, as in other lisps;
+		// indexing args[size-1] below would panic the host.
+		gen.AddInstruction(PushInstr{&SexpBool{Val: !or}})
+		return nil
+	}
 
 	subgen := gen.NewSubGenerator()
 	subgen.scopes = gen.scopes
